@@ -1,27 +1,60 @@
-(* C03 — share ledger consistency.  The validator-share half is FALSE of the
-   unchanged code (refutation: a history executed on the real implementation);
-   what is proved for every reachable state: all maps are key-sorted without
-   duplicates (the structural part of the ledger), every asset is stored under its
-   own denom.  The delegator-share sum is covered by the executable specification
-   check_C03 on implementation traces (clause 1 never failed) — partial. *)
+(* C03 — share ledger consistency.
+   Delegator half, main theorem: for every validator and asset, in EVERY reachable state, the
+   shares recorded in the delegations of (validator, asset) sum to the validator's recorded
+   delegator-share total of that asset (0 when the validator has no record), and no delegation
+   carries negative shares (Proofs/ShareLedger.v: induction over all histories through every
+   keeper function; on the way: the rounding clamp of SubtractDecCoinsWithRounding can never fire
+   on delegator shares, every stored share list stays denom-sorted).  Assumed of a step: a slash
+   callback that returns an ERROR is excluded (C08); x/staking removes a validator record only
+   when it carries no delegator shares of the asset.
+   Validator half: FALSE of the code (refutation below, known finding F-C03-1): the validators'
+   asset shares do not always sum to the asset's total.  Reset at zero total and non-negativity of
+   validator shares: check_C03 on implementation traces (partial). *)
 From Coq Require Import ZArith List Bool.
-From Alliance Require Import Num KMap KMapSorted Types Monad Model Step Spec Hoare WitnessLib.
+From Alliance Require Import Num KMap Types Monad Model Step Spec Hoare WitnessLib.
 From Alliance.Witness Require Import F_C03_valshares.
-From Alliance.Proofs Require Import SortedInv WellKeyed.
+From Alliance.Proofs Require Import SortedInv WellKeyed ShareLedger.
 Import ListNotations.
 Open Scope Z_scope.
 
-(* F-C03-1: ClearDustDelegation drops a validator's residual shares (token value 0)
-   without touching the asset's share total: sum of validator shares <> total. *)
+Theorem C03_delegator_shares_sum_to_the_total : forall v dn h, adm_sl_run v dn init_state h ->
+  let s := run init_state h in
+  deleg_share_sum s v dn = dshares_of s v dn /\
+  forall k x, kget (delegations s) k = Some x -> 0 <= d_shares x.
+Proof. exact delegator_shares_sum_to_the_total. Qed.
+Print Assumptions C03_delegator_shares_sum_to_the_total.
+
+(* one step, any operation *)
+Theorem C03_step : forall v dn s o, JD v dn 0 s -> adm_sl v dn s o -> JD v dn 0 (fst (step s o)).
+Proof. exact step_JD. Qed.
+Print Assumptions C03_step.
+
+(* F-C03-1: sum of the validators' asset shares <> the asset's TotalValidatorShares (clause 2);
+   history executed on the real implementation *)
 Example C03_refuted_validator_shares : witness_fails 3 2 ops_F_C03_valshares = true.
 Proof. vm_compute. reflexivity. Qed.
 Print Assumptions C03_refuted_validator_shares.
 
+(* structural invariants of every reachable state: every map is strictly sorted by key — no
+   delegation / validator / asset record exists twice — and every asset sits under its denom *)
 Theorem C03_records_unique : forall h, let s := run init_state h in
-  ksorted (delegations s) /\ ksorted (valinfos s) /\ ksorted (assets s).
-Proof. intros h s. destruct (reachable_Sorted h) as (?&?&?&?&?); auto. Qed.
+  SortedS s.
+Proof. exact reachable_Sorted. Qed.
 Print Assumptions C03_records_unique.
-
 Theorem C03_asset_keys : forall h d a, kget (assets (run init_state h)) [d] = Some a -> a_denom a = d.
 Proof. exact well_keyed. Qed.
 Print Assumptions C03_asset_keys.
+
+(* non-vacuity: delegate, delegate, redelegate, slash of the source, undelegate: admissible, sums agree *)
+Definition C03_example : list Op :=
+  [EStaking [(10, mkSVal 3 1000000 (1000000 * ONE)); (11, mkSVal 3 1000000 (1000000 * ONE))] []; EUnbondingTime 100; EParams 0 1000 ZERO_TIME;
+   EGenesisAsset (mkAsset 1 ONE 0 (5 * ONE) 0 0 0 0 ONE 0 0 true); EBank [(100, 1, 1000); (101, 1, 1000)] [];
+   OBeginBlock 10 1; ODelegate 100 10 1 500; ODelegate 101 10 1 333; ORedelegate 100 10 11 1 200;
+   OHookSlash 10 (ONE / 3); OUndelegate 101 10 1 100; OUndelegate 100 11 1 50].
+Example C03_nonvacuous : adm_sl_run 10 1 init_state C03_example /\ adm_sl_run 11 1 init_state C03_example /\
+  let s := run init_state C03_example in
+  (deleg_share_sum s 10 1 =? dshares_of s 10 1) && (deleg_share_sum s 11 1 =? dshares_of s 11 1) && (0 <? deleg_share_sum s 10 1) && (0 <? deleg_share_sum s 11 1) = true.
+Proof.
+  split; [|split; [|vm_compute; reflexivity]];
+    (unfold C03_example; cbn [adm_sl_run]; repeat split; cbv [adm_sl]; try exact I; try (vm_compute; discriminate); try (vm_compute; intro; discriminate)).
+Qed.
